@@ -575,7 +575,11 @@ func checkAugCase(res *Result, ac *augCase, dir string, idx int, seed int64, rea
 		q := ps2[0]
 		q.words = w2
 		ps2[0] = q
-		tail := "other.fn(0x10, 0xc000123456)\n\t/nonexistent/x.go:7 +0x1d\n"
+		// a frame with a truncated argument list whose source is on disk too (many.go): its typed
+		// rendering ends in the "..." marker
+		_ = os.WriteFile(filepath.Join(dir, "many.go"), []byte("package main\n\nfunc many(a, b, c, d, e, f, g, h, i, j, k int) {\n\tpanic(\"x\")\n}\n"), 0o644)
+		tail := fmt.Sprintf("main.many(0x1, 0x2, 0x3, 0x4, 0x5, 0x6, 0x7, 0x8, 0x9, 0xa, ...)\n\t%s:4 +0x1d\n", filepath.ToSlash(filepath.Join(dir, "many.go"))) +
+			"other.fn(0x10, 0xc000123456)\n\t/nonexistent/x.go:7 +0x1d\n"
 		dump3 := fmt.Sprintf("goroutine 1 [running]:\n%s(%s)\n\t%s:%d +0x1d\n%s\ngoroutine 2 [running]:\n%s(%s)\n\t%s:%d +0x1d\n%s", fn, words, file, pl, tail, fn, printWords(ps2, recv), file, pl, tail)
 		if !cutOnly {
 			immutAug(res, dump3, idx, cs)
@@ -617,7 +621,7 @@ func checkAugCase(res *Result, ac *augCase, dir string, idx int, seed int64, rea
 	}
 	// mismatching sources: never a crash, a changed value or a changed frame
 	base, _ := scanWith(dump, &stack.Opts{LocalGOROOT: runtime.GOROOT(), GuessPaths: true})
-	for m := 0; m < 6; m++ {
+	for m := 0; m < 8; m++ {
 		switch m {
 		case 0:
 			_ = os.Remove(filepath.Join(dir, "main.go"))
@@ -637,6 +641,15 @@ func checkAugCase(res *Result, ac *augCase, dir string, idx int, seed int64, rea
 				other = append(other, mkAugParam([]string{"string", "slice", "iface", "int8", "float64", "map"}[rng.Intn(6)], rng, i))
 			}
 			genSource(dir, other, recv, 0) // other kinds
+		case 6, 7:
+			// a method with two receivers / an empty receiver list: not Go, but go/parser accepts it
+			src, _ := genSource(dir, ps, false, 0)
+			recvTxt := "(t *T, u *T) "
+			if m == 7 {
+				recvTxt = "() "
+			}
+			src = strings.Replace(src, "func callee(", "func "+recvTxt+"callee(", 1)
+			_ = os.WriteFile(filepath.Join(dir, "main.go"), []byte(src), 0o644)
 		case 5:
 			// declarations without bodies (assembly / linkname stubs) above the callee
 			src, _ := genSource(dir, ps, recv, 0)
